@@ -18,6 +18,7 @@ from vlib import Undecided
 import kanilib
 import registry
 
+OUT = os.environ.get('VERIF_OUT', VERIF)     # evidence/ and replays/ go here (self-tests redirect it)
 SCRATCH = os.path.join(os.environ.get('VERIF_SCRATCH', '/var/tmp'), 'undermoon-verif.%d' % os.getpid())
 
 
@@ -184,7 +185,7 @@ def run_unit(unit_name, tier, seed):
 
 # ------------------------------------------------------------------ replay files
 def write_replay(pid, body):
-    d = os.path.join(VERIF, 'replays', pid)
+    d = os.path.join(OUT, 'replays', pid)
     os.makedirs(d, exist_ok=True)
     name = '%s_%s.json' % (time.strftime('%Y%m%dT%H%M%S'), re.sub(r'[^A-Za-z0-9_.-]+', '_', body.get('obligation', 'x'))[:80])
     p = os.path.join(d, name)
@@ -213,7 +214,7 @@ def decide(pid, tier, seed):
     units = list(P.get('verus', []))
     if tier == 'thorough':
         units += P.get('verus_thorough', [])
-    kharn = list(P.get('kani', []))
+    kharn = [] if os.environ.get('VERIF_SKIP_KANI') else list(P.get('kani', []))
     if tier == 'thorough':
         kharn += P.get('kani_thorough', [])
     results = []
@@ -327,8 +328,8 @@ def write_evidence(pid, tier, seed, P, results, kres, violations, known, undecid
     }
     ev = {'property_id': pid, 'tier': tier, 'seed': seed, 'level': level, 'coverage': cov,
           'assumptions': P.get('assumptions', []) + trusted, 'wall_s': round(wall, 2), 'violations': len(violations) - len(known)}
-    os.makedirs(os.path.join(VERIF, 'evidence'), exist_ok=True)
-    json.dump(ev, open(os.path.join(VERIF, 'evidence', pid + '.json'), 'w'), indent=1)
+    os.makedirs(os.path.join(OUT, 'evidence'), exist_ok=True)
+    json.dump(ev, open(os.path.join(OUT, 'evidence', pid + '.json'), 'w'), indent=1)
 
 
 def rebaseline(units):
